@@ -425,6 +425,77 @@ Example sp_mul_forward_error_nonvacuous :   (* same instance *)
   (forall i, (i < sp_rows ex_sp)%nat -> (INR (length (row_entries xadd xsub xmul xdiv ex_sp i)) * ux < 1)%R).
 Proof. split; [exact ux_range|]. split; [exact ex_sp_wf|]. split; [eexists; reflexivity|exact ex_sp_rows]. Qed.
 
+(* ---------- Props/pending/C11_round.v.txt ---------- *)
+(* ======================================================================================================
+   C11 (polynomial ring and calculus laws), rounding half -- package round.  Append to Props/C11.v.
+   Horner evaluation "to rounding accuracy": Model/Poly.v [peval] in the STANDARD MODEL of floating-point arithmetic
+   (the same Gallina [peval] at ARm): the computed value is the exact value of a polynomial whose coefficients are
+   perturbed relatively by at most gam (2d), d = degree; hence |fl(p(x)) - p(x)| <= gam (2d) Sum |a_i| |x|^i
+   (Higham, Accuracy and Stability of Numerical Algorithms, (5.3)), for every degree with 2 d u < 1.
+   Unproved remainder: this is the a priori bound; the running (a posteriori) error bound of Higham Alg. 5.1 belongs to
+   an algorithm the code does not contain.  The standard model itself for IEEE binary64 is not re-proved here.
+   ====================================================================================================== *)
+From Coq Require Import Reals Lra Lia.
+From OV Require Import Base.RoundModel Proofs.RoundPoly Proofs.RoundFlx.
+
+Theorem peval_backward_error : forall (u : R), (0 <= u < 1)%R ->
+  forall (fadd fsub fmul fdiv : R -> R -> R),
+  (forall x y : R, exists d : R, (Rabs d <= u)%R /\ fadd x y = ((x + y) * (1 + d))%R) ->
+  (forall x y : R, exists d : R, (Rabs d <= u)%R /\ fmul x y = (x * y * (1 + d))%R) ->
+  forall (p : list R) (x r : R),
+  (INR (2 * (length p - 1)) * u < 1)%R -> peval (A := ARm fadd fsub fmul fdiv) p x = Ok r ->
+  exists th : nat -> R,
+    (forall i, (i < length p)%nat -> (Rabs (th i) <= gam u (2 * (length p - 1)))%R) /\
+    r = Rsum (length p) (fun i => (nth i p 0 * (1 + th i) * x ^ i)%R).
+Proof. intros u Hu fadd fsub fmul fdiv Ha Hm p x r. exact (peval_backward_error_lemma u Hu fadd fsub fmul fdiv Ha Hm p x r). Qed.
+Check peval_backward_error : forall (u : R), (0 <= u < 1)%R ->
+  forall (fadd fsub fmul fdiv : R -> R -> R),
+  (forall x y : R, exists d : R, (Rabs d <= u)%R /\ fadd x y = ((x + y) * (1 + d))%R) ->
+  (forall x y : R, exists d : R, (Rabs d <= u)%R /\ fmul x y = (x * y * (1 + d))%R) ->
+  forall (p : list R) (x r : R),
+  (INR (2 * (length p - 1)) * u < 1)%R -> peval (A := ARm fadd fsub fmul fdiv) p x = Ok r ->
+  exists th : nat -> R,
+    (forall i, (i < length p)%nat -> (Rabs (th i) <= gam u (2 * (length p - 1)))%R) /\
+    r = Rsum (length p) (fun i => (nth i p 0 * (1 + th i) * x ^ i)%R).
+Print Assumptions peval_backward_error.
+(* 1 + 2x + 3x^2 at x = 2 in the arithmetic that rounds every operation to 53 bits *)
+Example peval_backward_error_nonvacuous :
+  (0 <= ux < 1)%R /\
+  (forall x y : R, exists d : R, (Rabs d <= ux)%R /\ xadd x y = ((x + y) * (1 + d))%R) /\
+  (forall x y : R, exists d : R, (Rabs d <= ux)%R /\ xmul x y = (x * y * (1 + d))%R) /\
+  (INR (2 * (length [1%R; 2%R; 3%R] - 1)) * ux < 1)%R /\
+  exists r, peval (A := AFlx) [1%R; 2%R; 3%R] 2%R = Ok r.
+Proof.
+  split; [exact ux_range|]. split; [exact xadd_ok|]. split; [exact xmul_ok|].
+  split; [cbn [length Nat.sub Nat.mul Nat.add INR]; pose proof ux_small; lra|eexists; reflexivity].
+Qed.
+
+Theorem peval_forward_error : forall (u : R), (0 <= u < 1)%R ->
+  forall (fadd fsub fmul fdiv : R -> R -> R),
+  (forall x y : R, exists d : R, (Rabs d <= u)%R /\ fadd x y = ((x + y) * (1 + d))%R) ->
+  (forall x y : R, exists d : R, (Rabs d <= u)%R /\ fmul x y = (x * y * (1 + d))%R) ->
+  forall (p : list R) (x r : R),
+  (INR (2 * (length p - 1)) * u < 1)%R -> peval (A := ARm fadd fsub fmul fdiv) p x = Ok r ->
+  (Rabs (r - Rsum (length p) (fun i => nth i p 0 * x ^ i))
+     <= gam u (2 * (length p - 1)) * Rsum (length p) (fun i => Rabs (nth i p 0) * Rabs x ^ i))%R.
+Proof. intros u Hu fadd fsub fmul fdiv Ha Hm p x r. exact (peval_forward_error_lemma u Hu fadd fsub fmul fdiv Ha Hm p x r). Qed.
+Check peval_forward_error : forall (u : R), (0 <= u < 1)%R ->
+  forall (fadd fsub fmul fdiv : R -> R -> R),
+  (forall x y : R, exists d : R, (Rabs d <= u)%R /\ fadd x y = ((x + y) * (1 + d))%R) ->
+  (forall x y : R, exists d : R, (Rabs d <= u)%R /\ fmul x y = (x * y * (1 + d))%R) ->
+  forall (p : list R) (x r : R),
+  (INR (2 * (length p - 1)) * u < 1)%R -> peval (A := ARm fadd fsub fmul fdiv) p x = Ok r ->
+  (Rabs (r - Rsum (length p) (fun i => nth i p 0 * x ^ i))
+     <= gam u (2 * (length p - 1)) * Rsum (length p) (fun i => Rabs (nth i p 0) * Rabs x ^ i))%R.
+Print Assumptions peval_forward_error.
+Example peval_forward_error_nonvacuous :   (* same instance *)
+  (0 <= ux < 1)%R /\ (INR (2 * (length [1%R; 2%R; 3%R] - 1)) * ux < 1)%R /\
+  exists r, peval (A := AFlx) [1%R; 2%R; 3%R] 2%R = Ok r.
+Proof.
+  split; [exact ux_range|].
+  split; [cbn [length Nat.sub Nat.mul Nat.add INR]; pose proof ux_small; lra|eexists; reflexivity].
+Qed.
+
 (* ---------- Props/pending/C15_round.v.txt ---------- *)
 (* ======================================================================================================
    C15 (vectors), rounding half -- package round.  Append to Props/C15.v.
@@ -589,4 +660,47 @@ Proof.
   cbn zeta. split; [eexists; split; [reflexivity|apply ffinite_SF; reflexivity]|].
   cbn [length INR]. pose proof u64_small. lra.
 Qed.
+
+(* ---- norm_1 "to rounding accuracy" (standard model): relative error gam n, since all terms have one sign ---- *)
+From OV Require Import Proofs.RoundNorm.
+
+Theorem norm_1_backward_error : forall (u : R), (0 <= u < 1)%R ->
+  forall (fadd fsub fmul fdiv : R -> R -> R),
+  (forall x y : R, exists d : R, (Rabs d <= u)%R /\ fadd x y = ((x + y) * (1 + d))%R) ->
+  forall (v : list R), (INR (length v) * u < 1)%R ->
+  exists th : nat -> R,
+    (forall k, (k < length v)%nat -> (Rabs (th k) <= gam u (length v))%R) /\
+    norm_1 (A := ARm fadd fsub fmul fdiv) v = Rsum (length v) (fun k => (Rabs (nth k v 0) * (1 + th k))%R).
+Proof. intros u Hu fadd fsub fmul fdiv Ha v. exact (norm_1_backward_error_lemma u Hu fadd fsub fmul fdiv Ha v). Qed.
+Check norm_1_backward_error : forall (u : R), (0 <= u < 1)%R ->
+  forall (fadd fsub fmul fdiv : R -> R -> R),
+  (forall x y : R, exists d : R, (Rabs d <= u)%R /\ fadd x y = ((x + y) * (1 + d))%R) ->
+  forall (v : list R), (INR (length v) * u < 1)%R ->
+  exists th : nat -> R,
+    (forall k, (k < length v)%nat -> (Rabs (th k) <= gam u (length v))%R) /\
+    norm_1 (A := ARm fadd fsub fmul fdiv) v = Rsum (length v) (fun k => (Rabs (nth k v 0) * (1 + th k))%R).
+Print Assumptions norm_1_backward_error.
+Example norm_1_backward_error_nonvacuous :
+  (0 <= ux < 1)%R /\
+  (forall x y : R, exists d : R, (Rabs d <= ux)%R /\ xadd x y = ((x + y) * (1 + d))%R) /\
+  (INR (length [1%R; (-2)%R; 3%R]) * ux < 1)%R.
+Proof. split; [exact ux_range|]. split; [exact xadd_ok|cbn [length INR]; pose proof ux_small; lra]. Qed.
+
+Theorem norm_1_relative_error : forall (u : R), (0 <= u < 1)%R ->
+  forall (fadd fsub fmul fdiv : R -> R -> R),
+  (forall x y : R, exists d : R, (Rabs d <= u)%R /\ fadd x y = ((x + y) * (1 + d))%R) ->
+  forall (v : list R), (INR (length v) * u < 1)%R ->
+  (Rabs (norm_1 (A := ARm fadd fsub fmul fdiv) v - Rsum (length v) (fun k => Rabs (nth k v 0)))
+     <= gam u (length v) * Rsum (length v) (fun k => Rabs (nth k v 0)))%R.
+Proof. intros u Hu fadd fsub fmul fdiv Ha v. exact (norm_1_relative_error_lemma u Hu fadd fsub fmul fdiv Ha v). Qed.
+Check norm_1_relative_error : forall (u : R), (0 <= u < 1)%R ->
+  forall (fadd fsub fmul fdiv : R -> R -> R),
+  (forall x y : R, exists d : R, (Rabs d <= u)%R /\ fadd x y = ((x + y) * (1 + d))%R) ->
+  forall (v : list R), (INR (length v) * u < 1)%R ->
+  (Rabs (norm_1 (A := ARm fadd fsub fmul fdiv) v - Rsum (length v) (fun k => Rabs (nth k v 0)))
+     <= gam u (length v) * Rsum (length v) (fun k => Rabs (nth k v 0)))%R.
+Print Assumptions norm_1_relative_error.
+Example norm_1_relative_error_nonvacuous :
+  (0 <= ux < 1)%R /\ (INR (length [1%R; (-2)%R; 3%R]) * ux < 1)%R.
+Proof. split; [exact ux_range|cbn [length INR]; pose proof ux_small; lra]. Qed.
 
